@@ -290,6 +290,32 @@ Fixpoint dropped_last (l : list sop) (acc : list N) : list N :=
     end
   end.
 
+(* abstract content: (instance, TKey) -> last value written, all at one version *)
+Fixpoint amap_set (i : N) (tk : bytes) (o : option bytes) (m : list (N * bytes * bytes)) : list (N * bytes * bytes) :=
+  match m with
+  | [] => match o with Some v => [(i, tk, v)] | None => [] end
+  | (i', tk', v') :: r =>
+    if (i =? i') && bytes_eqb tk tk' then match o with Some v => (i, tk, v) :: r | None => r end
+    else (i', tk', v') :: amap_set i tk o r
+  end.
+Definition amap_get (i : N) (tk : bytes) (m : list (N * bytes * bytes)) : option bytes :=
+  match find (fun e => (fst (fst e) =? i) && bytes_eqb (snd (fst e)) tk) m with
+  | Some (_, _, v) => Some v
+  | None => None
+  end.
+Fixpoint reads_ok (l : list sop) (m : list (N * bytes * bytes)) : bool :=
+  match l with
+  | [] => true
+  | SPut i _ tk v :: r => reads_ok r (amap_set i tk (Some v) m)
+  | SDelete i _ tk :: r => reads_ok r (amap_set i tk None m)
+  | SDeleteAllV i :: r | SDropInstance i :: r => reads_ok r (filter (fun e => negb (fst (fst e) =? i)) m)
+  | SGet i _ tk go :: r =>
+    match go with
+    | Ok got => opt_eqb bytes_eqb got (amap_get i tk m) && reads_ok r m
+    | _ => false
+    end
+  end.
+
 Definition view_eqb (a b : view) : bool :=
   res_eqb keys_eqb (fst a) (fst b) &&
   list_eqb (fun x y => bytes_eqb (fst x) (fst y) && res_eqb (opt_eqb bytes_eqb) (snd x) (snd y)) (snd a) (snd b).
@@ -370,12 +396,9 @@ Definition spec_class (c : c06case) : nat :=
     if negb (store_eqb (others ids before) (others ids after)) then 4%nat
     else if existsb (fun i => existsb (fun e => of_instance i (fst e)) after) (dropped_last steps []) then 5%nat
     else
-      (* a read may only return what was stored under its own TKey *)
-      let bad_read := existsb (fun o => match o with
-        | SGet i v tk (Ok (Some val)) =>
-          negb (opt_eqb bytes_eqb (kv_get (construct_data_key i v 0 tk) after) (Some val))
-        | _ => false end) steps in
-      if bad_read then 6%nat else 0%nat
+      (* a read returns what was last written under its own (instance, TKey) and nothing else
+         (scenarios with reads start from an empty store) *)
+      if match before with [] => negb (reads_ok steps []) | _ => false end then 6%nat else 0%nat
   | CHist ver steps go_keys b_before b_after a_new =>
     if negb (view_eqb b_before b_after) then 4%nat
     else if negb (view_empty a_new) then 8%nat
